@@ -229,6 +229,93 @@ def worker(job):
     return part.dump()
 
 
+def binary_worker(job):
+    """the real option: `btcdeb -z <script> <stack>` and the same without -z, non-interactive (stdin a terminal, stdout a pipe)"""
+    bindir, idx, n = job
+    from vf import proc
+    rng = sub_rng(PROP, 'bin', idx)
+    part = Partial()
+    wd = scratch('c17b')
+    btcdeb = os.path.join(bindir, 'btcdeb')
+    try:
+        for i in range(n):
+            op = rng.choice(UN + BIN + TER)
+            k = 1 if op in UN else 2 if op in BIN else 3
+            if op in (OP_LEFT, OP_RIGHT):
+                st = [rng.choice(POOL), rng.choice(OFFS)]
+            elif op == OP_SUBSTR:
+                st = [rng.choice(BLOBS), rng.choice(OFFS), rng.choice(OFFS)]
+            else:
+                st = [rng.choice(POOL) for _ in range(k)]
+            allow = rng.random() < 0.7
+            wrapped = rng.random() < 0.2
+            script = bytes([OP_0, OP_IF, op, OP_ENDIF]) if wrapped else bytes([op])
+            opt = [rng.choice(['-z', '--allow-disabled-opcodes'])] if allow else []
+            name = OPNAME[op]
+            mode = rng.choice(['ptyin', 'pipe', 'ptyout'])     # script on argv / on stdin; stdout a pipe or a terminal
+            if mode in ('pipe', 'ptyout'):
+                r = proc.run([btcdeb] + opt + ['0x' + x.hex() for x in st], wd, stdin=('0x' + script.hex() + '\n').encode(), mode=mode, timeout=30)
+            else:
+                r = proc.run([btcdeb] + opt + ['0x' + script.hex()] + ['0x' + x.hex() for x in st], wd, mode=mode, timeout=30)
+            if mode == 'ptyout':
+                r.stdout = proc.clean_tty(r.stdout)
+            part.evaluations += 1
+            part.count('binary', ('-z' if allow else 'no option') + ('/unexecuted' if wrapped else '') + '/' + mode)
+            wit = dict(op=name, stack=[x.hex() for x in st], option=opt, unexecuted=wrapped, via='btcdeb binary', mode=mode, run=r.brief())
+            if r.abnormal:
+                part.violation('%s:binary:%s' % (name, r.crash_key('btcdeb')), wit)
+                continue
+            err = r.stderr.decode('latin1')
+            lines = [l for l in r.stdout.decode('latin1').split('\n') if l != '' or False]
+            if not allow:
+                if r.rc != 1 or 'disabled' not in err.lower():
+                    part.violation('%s:binary:not-disabled-without-option' % name, wit)
+                else:
+                    part.nontrivial.add(nt_hash('bin', op, tuple(st), allow, wrapped))
+                continue
+            if wrapped:
+                # skipped: the initial stack is the result
+                got = [bytes.fromhex(l) for l in r.stdout.decode('latin1').split('\n')[:-1]] if r.rc == 0 else None
+                if got != list(st) and not (r.rc == 1 and not (st and cast_bool(st[-1])) and False):
+                    # (a false/empty final stack is still printed with status 0 by the tool; only the stack is compared)
+                    part.violation('%s:binary:unexecuted-branch-not-skipped' % name, wit)
+                else:
+                    part.nontrivial.add(nt_hash('bin', op, tuple(st), allow, wrapped))
+                continue
+            it = Interp(bytes([op]), list(st), STANDARD, BASE, allow_disabled=True)
+            try:
+                it.step()
+                ref = ('ok', it.stack)
+            except (ScriptFail, NumErr):
+                ref = ('fail',)
+            overlong = op in NUMERIC and any(len(x) > 4 for x in st[-(2 if op not in UN else 1):])
+            if ref[0] == 'fail':
+                if r.rc != 1 or 'rror' not in err:
+                    part.violation('%s:binary:invalid-operands-accepted' % name, wit)
+                else:
+                    part.nontrivial.add(nt_hash('bin', op, tuple(st), allow, wrapped))
+                continue
+            res = ref[1][-1]
+            if isinstance(res, tuple) and any(v is None or abs(v) >= 2 ** 63 for v in res[1]):
+                if r.rc == 0:
+                    part.violation('%s:binary:unrepresentable-result-not-refused' % name, wit)
+                continue
+            if r.rc != 0:
+                if overlong:
+                    continue
+                part.violation('%s:binary:fails-on-valid-operands' % name, wit)
+                continue
+            got = [bytes.fromhex(l) for l in r.stdout.decode('latin1').split('\n')[:-1]]
+            if not lockstep.stacks_equal(ref[1], got):
+                wit['got'] = [x.hex() for x in got]
+                part.violation('%s:binary:wrong-result' % name, wit)
+                continue
+            part.nontrivial.add(nt_hash('bin', op, tuple(st), allow, wrapped))
+    finally:
+        cleanup_scratch(wd)
+    return part.dump()
+
+
 def main():
     ap = argparse.ArgumentParser()
     ap.add_argument('--tier', default=os.environ.get('VERIF_TIER', 'quick'))
@@ -254,9 +341,11 @@ def main():
     n = 32
     for r in parallel(worker, [(bindir, i, n, a.tier) for i in range(n)]):
         rep.merge(r)
+    for r in parallel(binary_worker, [(bindir, i, 40 if a.tier == 'quick' else 600) for i in range(16)]):
+        rep.merge(r)
     return rep.finish(
         rule='exhaustive over a boundary pool of %d values (numbers 0,+-1,+-127/128/255/256,2^15,2^31-1,2^39-1, negative zero, blobs of length 0..12, unequal lengths) for all arities of the 15 opcodes, '
-             'x {no flags, standard flags}; disabled / unexecuted variants on a 1/16 operand sample (they do not depend on operands); thorough adds 640k random operand tuples. '
+             'x {no flags, standard flags}; disabled / unexecuted variants on a 1/16 operand sample (they do not depend on operands); thorough adds 640k random operand tuples; a sample runs through the real binary (`btcdeb -z <script> <operands>` and the same without the option, non-interactive). '
              'non-trivial = distinct (opcode, operands, flags, mode) judged against the reference function (computed result or required failure)' % len(POOL),
         assumptions=['OP_2DIV is judged as `x 2 OP_DIV` (quotient truncated toward zero); rounding of negative values in OP_RSHIFT (a shift, not a division): truncation and floor are both accepted',
                      'numeric operands longer than 4 bytes may be refused as numeric overflow',
